@@ -457,6 +457,29 @@ theorem initial_windows_match_parameters (weAreClient : Bool) (peer : Params) (c
     repeat' split
     all_goals rfl
 
+open Uquic.Model.FlowInit in
+/-- **covering_config_is_pointwise_max.** For a spec-driven client (the QUICSpec's transport
+    parameters `adv` go on the wire, the flow controllers are built from
+    `configCoveringAdvertised(config, adv)`): the receive window every new stream starts with is at
+    least the limit advertised for *its* kind of stream (RFC 9000 §18.2), for every stream id; the
+    connection window is at least the advertised `initial_max_data`; nothing is lowered below the
+    configured values; and each maximum window size is at least its initial window. -/
+theorem covering_config_is_pointwise_max (cfg : Config) (adv : Params) (id : Nat) :
+    ∃ rw, newFlowControllerReceiveWindow (enforcedConfig cfg (some adv)) = some rw ∧
+      rfcReceiveLimit true adv id ≤ rw.1 ∧ rw.1 ≤ rw.2 ∧
+      cfg.initialStreamReceiveWindow ≤ rw.1 ∧ cfg.maxStreamReceiveWindow ≤ rw.2 ∧
+      adv.maxData ≤ (enforcedConfig cfg (some adv)).initialConnectionReceiveWindow ∧
+      cfg.initialConnectionReceiveWindow ≤ (enforcedConfig cfg (some adv)).initialConnectionReceiveWindow ∧
+      (enforcedConfig cfg (some adv)).initialConnectionReceiveWindow ≤ (enforcedConfig cfg (some adv)).maxConnectionReceiveWindow := by
+  refine ⟨_, by simp [newFlowControllerReceiveWindow, Uquic.Gen.Flowcontrol.newFCReceiveWindowFromConfig]; rfl, ?_⟩
+  simp only [enforcedConfig, coveringConfig, pick, rfcReceiveLimit, Uquic.Gen.Flowcontrol.coverAppliedInUClient,
+    Uquic.Gen.Flowcontrol.coverConnIsMax, Uquic.Gen.Flowcontrol.coverStreamOuterIsMax,
+    Uquic.Gen.Flowcontrol.coverStreamInnerIsMax, Uquic.Gen.Flowcontrol.coverMaxWindowsFollow, if_true]
+  refine ⟨?_, ?_, ?_, ?_, ?_, ?_, ?_⟩
+  · repeat' split
+    all_goals omega
+  all_goals omega
+
 /-! ## 7. no panic with the callback the connection installs -/
 
 /-- connection.go always passes a function literal as `allowWindowIncrease` (regenerated fact). -/
